@@ -101,7 +101,7 @@ def emplace_contract(stored, extra_req=[]):
                  ('C10', implies('g_q == __CPROVER_return_value', '!g_was_live')),
                  ('C10', implies('g_q != __CPROVER_return_value', 'tl_live(self, g_q) == g_was_live')),
                  ('C10', implies('g_q != __CPROVER_return_value && g_was_live', SAME_ITEM)),
-                 ('C10,C07', implies('__CPROVER_return_value != 255', stored))])
+                 ('C10,C07,C17', implies('__CPROVER_return_value != 255', stored))])
 UNITS += [
     tl('emplace', dict(name='emplace', nparams=2), '@target', emplace_contract(ARGS_STORED2)),
     tl('emplace_payload', dict(name='emplace', nparams=3), '@target', emplace_contract(
